@@ -36,7 +36,11 @@ ClauseC04(p, rec) ==
       ELSE IF tv.v = "unspec" \/ sv.v = "unspec" THEN
            (IF rec.tt \in {"VALID", "INVALID"} /\ rec.seq \in {"VALID", "INVALID"} /\ rec.tt # rec.seq
                /\ InitOK3(R(p), InitSt(R(p))) = "T"
-            THEN "validators-disagree-tt-" \o rec.tt \o "-seq-" \o rec.seq ELSE "U")
+            THEN "validators-disagree-tt-" \o rec.tt \o "-seq-" \o rec.seq \o "-spec-unspec-"
+                    \o (LET w == IF sv.v = "unspec" THEN sv.why ELSE tv.why
+                        \* "ok" + unspecified = zone 7.1-3 (equal values written by different assignments of one step)
+                        IN IF w = "ok" THEN "equal-values-from-two-assignments" ELSE w)
+            ELSE "U")
       ELSE IF tv.v # sv.v THEN "SPEC-INCONSISTENT-time-" \o tv.v \o "-" \o tv.why \o "-seq-" \o sv.v \o "-" \o sv.why
       ELSE IF InitOK3(R(p), InitSt(R(p))) # "T" THEN "U"    \* C04 assumes a valid initial state
       ELSE IF rec.tt \notin {"VALID", "INVALID"} THEN "tt-raises-" \o rec.tt
